@@ -15,7 +15,7 @@ RULE = ('case idx -> protection mode (10 suites) x version x kind {5 plain sessi
         'buffer), exact-size heap blocks: a refused configuration must be visibly refused (reset 0 / CLOSED with an error) and stay so, an '
         'accepted one must complete a handshake and exchange data exactly, the minimum itself must be accepted; every offered region is '
         'checked against the caller block after each call; minimum-size servers of every layout also face a full-size client that sends a '
-        'certificate chain larger than the whole server input buffer in one unencrypted record (taken in pieces). reuse: one client context reset and used for four connections (with / without resumption) against servers that echo the extension and servers that do not, in six orders: after each handshake the negotiated flag equals the presence of the extension in that ServerHello. distinct = (mode, version, client layout/limit, '
+        'certificate chain larger than the whole server input buffer in one unencrypted record (taken in pieces). reuse: one client context reset and used for four connections (with / without resumption) against servers that echo the extension and servers that do not, in six orders: after each handshake the negotiated flag equals the presence of the extension in that ServerHello; one server context (with / without session cache) reset for four clients of different buffer classes in four orders: no extension without a request, echo equal to this connection's request, records within this connection's limit and full-size again without one. distinct = (mode, version, client layout/limit, '
         'server layout/limit, echoed code) tuples.')
 ASSUMPTIONS = [
     'for the engine-split single buffer the caller cannot know the split point, so exact-fit checks use the shared and two-buffer layouts',
@@ -23,10 +23,10 @@ ASSUMPTIONS = [
     'OpenSSL EVP trusted for measuring and forging records',
 ]
 EVAL = ['cases']
-DISTINCT = ['config', 'tiny_outcome', 'reuse_step']
+DISTINCT = ['config', 'tiny_outcome', 'reuse_step', 'server_reuse_step']
 REQUIRED = ['cases', 'sessions_completed', 'sessions_with_mfl', 'sessions_without_mfl', 'cmp_client_request', 'cmp_negotiated_flag',
             'records_measured', 'forged_max_records', 'forged_fit_records', 'forged_oversize_records', 'mitm_rewrite_applied',
-            'mitm_delete_applied', 'server_used_full_fragment', 'tiny_refused', 'tiny_streams_exact', 'small_server_sessions', 'reuse_flag_matches']
+            'mitm_delete_applied', 'server_used_full_fragment', 'tiny_refused', 'tiny_streams_exact', 'small_server_sessions', 'reuse_flag_matches', 'server_reuse_ok']
 NW = 16
 
 
